@@ -500,6 +500,31 @@ def run_indent(job):
                 nl = sum(1 for g in got if g[0] == '"\\n"') == len(lines)
                 ok = ok and bal and nl
                 what = "tokens %s; documented rule gives %s" % (got, exp[1] if exp[0] == "ok" else exp)
+                if ok:
+                    # every token's text is the source slice at its reported position (Indent: the added whitespace;
+                    # Dedent: empty; the newline token stands for the line terminator, which is not part of the line)
+                    conds = []
+                    for t in tokens:
+                        loc = t.source_location
+                        if t.symbol == '"\\n"':
+                            conds.append(z3.BoolVal(t.text == "\n"))
+                            continue
+                        li = loc.start.line - 1
+                        sl = lines[li][loc.start.column - 1:loc.end.column - 1] if li < len(lines) else SymStr([])
+                        conds.append(_text_eq(t.text, sl))
+                    r, m = c.prove(z3.And(*conds)) if conds else ("unsat", None)
+                    out["obligations"] += 1
+                    if r == "unsat":
+                        out["discharged"] += 1
+                    elif r == "sat":
+                        ok = False
+                        txt = "\n".join(l.concrete(m) for l in lines)
+                        what = "a token's text is not the source slice at its position: %s" % [
+                            (t.symbol, t.text.concrete(m) if isinstance(t.text, SymStr) else t.text) for t in tokens if t.symbol in ("Indent", "Dedent")]
+                        out["candidates"].append({"kind": "text", "text": txt, "what": what})
+                        return
+                    else:
+                        out["unknown"] += 1
             if ok:
                 out["discharged"] += 1
             else:
@@ -512,6 +537,15 @@ def run_indent(job):
     finally:
         proxies.__exit__()
     return out
+
+
+def _text_eq(a, b):
+    """z3 condition: the two texts (str or SymStr) are equal."""
+    if isinstance(a, SymStr):
+        return a._eq_cond(b)
+    if isinstance(b, SymStr):
+        return b._eq_cond(a)
+    return z3.BoolVal(a == b)
 
 
 def _job(job):
@@ -582,9 +616,10 @@ def replay(c):
         return bad, "tokenizer: error %r line %d; documented table: %s; text %r" % (e.message, e.location.start.line, ref[:3], text)
     got = [(t.symbol, t.source_location.start.line, t.source_location.start.column, t.source_location.end.column) for t in tokens]
     lines = text.splitlines()
-    slices_ok = all(t.symbol in ("Indent", "Dedent", '"\\n"') or
-                    lines[t.source_location.start.line - 1][t.source_location.start.column - 1:t.source_location.end.column - 1] == t.text
-                    for t in tokens)
+    def _slice(t):
+        li = t.source_location.start.line - 1
+        return lines[li][t.source_location.start.column - 1:t.source_location.end.column - 1] if li < len(lines) else ""
+    slices_ok = all((t.text == "\n") if t.symbol == '"\\n"' else _slice(t) == t.text for t in tokens)
     bad = not (ref[0] == "ok" and got == ref[1] and slices_ok)
     return bad, "tokenizer: %s; documented table: %s; text %r" % (got, ref[1] if ref[0] == "ok" else ref, text)
 
